@@ -19,7 +19,8 @@ SPEC = {
     "groups": {
         "seq": ("mism_seq", "pf_seq"),
     },
-    "describe": lambda g, c: "after some operation of this history the memory view and a freshly started service disagree, a failed operation changed something, or two wallets share a fingerprint: %s" % c.get("history"),
+    "describe": lambda g, c: ("history %s, %s" % (c.get("sequence"), c.get("suspect_step"))) if c.get("suspect_step") else
+        ("after some operation of this history the memory view and a freshly started service disagree, a failed operation changed something, or two wallets share a fingerprint: %s" % c.get("history")),
     "trusted_base": [
         "abstraction of a real wallet to (file name, type, seed id via its fingerprint, label id, encrypted?, password id found by trying the pool, number of entries, temporary?) done by the harness; wallet-level functions (address generation, lock/unlock) are reduced to these fields",
         "failure of the wallet directory is injected by renaming the directory away for the duration of one operation",
